@@ -1,12 +1,255 @@
-/-! Executable model for property C18 (core-only).  Not built yet: the driver answers
-    `unimplemented` so that a check of this property cannot pass by accident. -/
+/-! Executable model for property C18 (core-only): the interceptor chain of `SimpleHTTPDef`
+    (network/simpleHTTP.go l.32-123).
+
+    * interceptors are pointers (`Nat` ids) kept in a persistent `Stream` (a list value):
+      `AddInterceptor` = one `Append` per argument, `RemoveInterceptor` = one `RemoveItem` (= `Minus`) per
+      argument, `ClearInterceptor` = the empty stream;
+    * `SetHTTPClient` installs the SimpleHTTP itself as the client's `RoundTripper`, keeping the client's
+      old transport in `clientTransport`; `lastTransport` is the re-wrap guard;
+    * `RoundTrip` = `recursiveVisit request 0`, which walks the list by index and finally calls
+      `clientTransport.RoundTrip`; a transport that is the SimpleHTTP itself re-enters `RoundTrip`
+      (the model follows it with fuel; running out of fuel is Go's fatal stack overflow, printed `crash`).
+    * an interceptor's behaviour is a parameter `beh : id → Req → Req × Bool` (new request state, failed?);
+      the request state is the list of `X-Trace` header values, so header threading is observable. -/
 namespace FpgoVerif.C18
 
-/-- one protocol case line in, one canonical observation line out -/
-def handle (_line : String) : String := "unimplemented"
+/-- a `http.RoundTripper`: `http.DefaultTransport`, a stub, or this SimpleHTTP itself -/
+inductive Tr | dflt | stub (n : Nat) | self
+deriving DecidableEq, Repr
 
-/-- spec-level oracle: given the case line and the observation printed by the real code, decide
-    whether the *property* is violated (`violation <why>`) or not (`allowed <why>`). -/
-def judge (_line _impl : String) : String := "violation model-and-implementation-disagree"
+abbrev Req := List Nat
+
+structure SH where
+  interceptors : List Nat
+  client : Nat
+  clientTransport : Option Tr
+  lastTransport : Option Tr
+deriving DecidableEq, Repr
+
+/-- the `Transport` field of every `*http.Client` the program holds (`none` = nil) -/
+abbrev Clients := List (Option Tr)
+
+inductive Ev
+  | icpt (id : Nat) (seen : Req)
+  | transport (t : Tr) (seen : Req)
+deriving DecidableEq, Repr
+
+inductive Res | ok | err (id : Nat) | panic | crash
+deriving DecidableEq, Repr
+
+/-! ### bookkeeping (l.65-82) -/
+
+/-- `fpgo.Minus(set1, set2)`: the items of `set1` not in `set2`, in order -/
+def minus (set1 set2 : List Nat) : List Nat := set1.filter (fun x => !set2.contains x)
+
+/-- `Stream.Append(item)` = `Concat`: a fresh slice with the item at the end -/
+def append (l : List Nat) (x : Nat) : List Nat := l ++ [x]
+
+def addInterceptor (s : SH) (xs : List Nat) : SH :=
+  { s with interceptors := xs.foldl append s.interceptors }
+
+def removeInterceptor (s : SH) (xs : List Nat) : SH :=
+  { s with interceptors := xs.foldl (fun l x => minus l [x]) s.interceptors }
+
+def clearInterceptor (s : SH) : SH := { s with interceptors := [] }
+
+/-! ### SetHTTPClient (l.90-106) -/
+
+def setHTTPClient (s : SH) (cs : Clients) (c : Nat) : SH × Clients :=
+  -- if client.Transport == nil { client.Transport = http.DefaultTransport }
+  let t : Tr := ((cs[c]?).getD none).getD .dflt
+  let cs := cs.set c (some t)
+  -- if client.Transport != lastTransport { clientTransport = client.Transport; client.Transport = self; lastTransport = self }
+  if some t ≠ s.lastTransport then
+    ({ s with clientTransport := some t, lastTransport := some .self, client := c }, cs.set c (some .self))
+  else
+    ({ s with client := c }, cs)
+
+/-- `NewSimpleHTTPWithClientAndInterceptors(client, interceptors...)` -/
+def newSimpleHTTP (cs : Clients) (c : Nat) (is : List Nat) : SH × Clients :=
+  setHTTPClient ⟨is, c, none, none⟩ cs c
+
+/-! ### RoundTrip / recursiveVisit (l.109-123) -/
+
+/-- `recursiveVisit(request, index)`; `fuel` bounds the total number of steps (index steps and
+    re-entries through a transport that is the SimpleHTTP itself) -/
+def recursiveVisit (beh : Nat → Req → Req × Bool) (s : SH) : Nat → Req → Nat → List Ev × Res
+  | 0, _, _ => ([], .crash)
+  | fuel + 1, req, index =>
+    if index ≥ s.interceptors.length ∧ s.clientTransport.isSome then
+      match s.clientTransport with
+      | some .self => recursiveVisit beh s fuel req 0          -- clientTransport.RoundTrip = our own RoundTrip
+      | some t => ([.transport t req], .ok)
+      | none => ([], .panic)
+    else
+      match s.interceptors[index]? with
+      | none => ([], .panic)                                    -- index out of range
+      | some i =>
+        let r := beh i req
+        if r.2 then ([.icpt i req], .err i)
+        else
+          let rest := recursiveVisit beh s fuel r.1 (index + 1)
+          (.icpt i req :: rest.1, rest.2)
+
+/-- fuel that the driver hands out: enough for any non-recursive walk, finite for a recursive one -/
+def fuelFor (s : SH) : Nat := 4 * (s.interceptors.length + 2)
+
+/-- `client.Do(request)` on the SimpleHTTP's current client (`DoRequest`, l.221-229) -/
+def clientDo (beh : Nat → Req → Req × Bool) (s : SH) (cs : Clients) (req : Req) : List Ev × Res :=
+  match ((cs[s.client]?).getD none).getD .dflt with
+  | .self => recursiveVisit beh s (fuelFor s) req 0
+  | t => ([.transport t req], .ok)
+
+/-! ### specification -/
+
+/-- what the property prescribes for one request: every registered interceptor once, in order, each
+    seeing the headers its predecessors left, the first error aborts, otherwise the transport sees the
+    final request exactly once -/
+def Spec.visit (beh : Nat → Req → Req × Bool) (t : Tr) : List Nat → Req → List Ev × Res
+  | [], req => ([.transport t req], .ok)
+  | i :: rest, req =>
+    let r := beh i req
+    if r.2 then ([.icpt i req], .err i)
+    else
+      let tl := Spec.visit beh t rest r.1
+      (.icpt i req :: tl.1, tl.2)
+
+inductive Op
+  | add (xs : List Nat)
+  | rem (xs : List Nat)
+  | clear
+deriving DecidableEq, Repr
+
+/-- the registration list the property prescribes after a history -/
+def Spec.book (l : List Nat) : List Op → List Nat
+  | [] => l
+  | .add xs :: ops => Spec.book (l ++ xs) ops
+  | .rem xs :: ops => Spec.book (l.filter (fun x => !xs.contains x)) ops
+  | .clear :: ops => Spec.book [] ops
+
+def applyOp (s : SH) : Op → SH
+  | .add xs => addInterceptor s xs
+  | .rem xs => removeInterceptor s xs
+  | .clear => clearInterceptor s
+
+/-! ### line protocol
+    `clients=<n|d|s<k>>,… fail=<ids|-> new=c<k>:<ids|->: op ; op …`
+    ops: `add i,j` `rem i,j` `rem -` `clear` `set c<k>` `req <VERB>`
+    observation of `req`: `i<id>:<trace> … T<name>:<trace> ->ok|->err<id>|->panic|->crash`; others `nil`. -/
+
+def parseIds (s : String) : List Nat :=
+  if s = "-" ∨ s = "" then [] else (s.splitOn ",").filterMap (·.toNat?)
+
+def parseTr (s : String) : Option Tr :=
+  if s = "n" then none else if s = "d" then some .dflt
+  else if s.startsWith "s" then some (.stub ((s.drop 1).toString.toNat?.getD 0)) else some .dflt
+
+def showTrace (r : Req) : String := ".".intercalate (r.map toString)
+
+def Tr.show : Tr → String
+  | .dflt => "d" | .stub n => s!"s{n}" | .self => "self"
+
+def Ev.show : Ev → String
+  | .icpt i r => s!"i{i}:{showTrace r}"
+  | .transport t r => s!"T{t.show}:{showTrace r}"
+
+def Res.show : Res → String
+  | .ok => "->ok" | .err i => s!"->err{i}" | .panic => "->panic" | .crash => "->crash"
+
+def showResult (x : List Ev × Res) : String :=
+  " ".intercalate (x.1.map Ev.show ++ [x.2.show])
+
+def kv (toks : List String) (key : String) : String :=
+  match toks.find? (·.startsWith (key ++ "=")) with
+  | some t => (t.drop (key.length + 1)).toString
+  | none => ""
+
+def clientIdx (s : String) : Nat := ((s.drop 1).toString.toNat?.getD 0)
+
+/-- the interceptor behaviour of the harness: append the own id to `X-Trace`, fail iff listed -/
+def behOf (fail : List Nat) : Nat → Req → Req × Bool := fun i r => (r ++ [i], fail.contains i)
+
+structure St where
+  s : SH
+  cs : Clients
+
+def splitCase (line : String) : String × List String :=
+  match line.splitOn ": " with
+  | head :: rest =>
+    (head, ((": ".intercalate rest).splitOn ";").map (fun t => t.trimAscii.toString) |>.filter (· ≠ ""))
+  | [] => ("", [])
+
+def initSt (head : String) : St × List Nat :=
+  let toks := head.splitOn " "
+  let cs : Clients := ((kv toks "clients").splitOn ",").map parseTr
+  let fail := parseIds (kv toks "fail")
+  let (c, is) := match (kv toks "new").splitOn ":" with
+    | [c, is] => (clientIdx c, parseIds is)
+    | _ => (0, [])
+  let (s, cs) := newSimpleHTTP cs c is
+  (⟨s, cs⟩, fail)
+
+def runOp (fail : List Nat) (st : St) (op : String) : St × String :=
+  match (op.splitOn " ").filter (· ≠ "") with
+  | ["add", xs] => ({ st with s := addInterceptor st.s (parseIds xs) }, "nil")
+  | ["rem", xs] => ({ st with s := removeInterceptor st.s (parseIds xs) }, "nil")
+  | ["clear"] => ({ st with s := clearInterceptor st.s }, "nil")
+  | ["set", c] =>
+    let (s, cs) := setHTTPClient st.s st.cs (clientIdx c)
+    (⟨s, cs⟩, "nil")
+  | ["req", _verb] => (st, showResult (clientDo (behOf fail) st.s st.cs []))
+  | _ => (st, "bad-op")
+
+def handle (line : String) : String :=
+  let (head, ops) := splitCase line
+  let (st0, fail) := initSt head
+  let (_, outs) := ops.foldl (fun (acc : St × List String) op =>
+    let (st, o) := runOp fail acc.1 op
+    (st, o :: acc.2)) (st0, [])
+  " | ".intercalate outs.reverse
+
+/-! ### specification-level oracle: the registration list by `Spec.book`, the call log by `Spec.visit`;
+    WHICH underlying transport finally receives the request is not part of the property, so any single
+    transport event with the right request is accepted. -/
+
+def specEvents (fail : List Nat) (is : List Nat) : List String × String :=
+  let r := Spec.visit (behOf fail) .dflt is []
+  (r.1.map (fun e => match e with
+    | .icpt .. => e.show
+    | .transport _ req => ":" ++ showTrace req), r.2.show)
+
+def obsMatches (exp : List String × String) (obs : String) : Bool :=
+  let toks := (obs.splitOn " ").filter (· ≠ "")
+  let evs := toks.dropLast
+  toks.getLast? = some exp.2 && evs.length = exp.1.length &&
+    (evs.zip exp.1).all (fun p =>
+      if p.2.startsWith ":" then
+        p.1.startsWith "T" && !p.1.startsWith "Tself" && (p.1.splitOn ":").drop 1 = [(p.2.drop 1).toString]
+      else p.1 = p.2)
+
+def judge (line impl : String) : String :=
+  let (head, ops) := splitCase line
+  let toks := head.splitOn " "
+  let fail := parseIds (kv toks "fail")
+  let is0 := match (kv toks "new").splitOn ":" with
+    | [_, is] => parseIds is
+    | _ => []
+  let obs := impl.splitOn " | "
+  if impl = "crash" ∨ impl = "hang" then "violation the process died / hung while running the case (unbounded recursion through the chain?)" else
+  if obs.length ≠ ops.length then "violation wrong number of observations" else
+  let (_, bad) := (ops.zip obs).foldl (fun (acc : List Nat × List String) oo =>
+    match (oo.1.splitOn " ").filter (· ≠ "") with
+    | ["add", xs] => (Spec.book acc.1 [.add (parseIds xs)], if oo.2 = "nil" then acc.2 else acc.2 ++ [s!"op '{oo.1}' observed '{oo.2}'"])
+    | ["rem", xs] => (Spec.book acc.1 [.rem (parseIds xs)], if oo.2 = "nil" then acc.2 else acc.2 ++ [s!"op '{oo.1}' observed '{oo.2}'"])
+    | ["clear"] => ([], if oo.2 = "nil" then acc.2 else acc.2 ++ [s!"op '{oo.1}' observed '{oo.2}'"])
+    | ["set", _] => (acc.1, if oo.2 = "nil" then acc.2 else acc.2 ++ [s!"op '{oo.1}' observed '{oo.2}'"])
+    | ["req", _] =>
+      let exp := specEvents fail acc.1
+      if obsMatches exp oo.2 then acc
+      else (acc.1, acc.2 ++ [s!"op '{oo.1}' with registered interceptors {acc.1}: observed '{oo.2}', property demands '{" ".intercalate (exp.1 ++ [exp.2])}' (':trace' = any one transport)"])
+    | _ => acc) (is0, [])
+  match bad with
+  | [] => "allowed call logs are what the property prescribes (model differs, e.g. in which transport is used)"
+  | b :: _ => "violation " ++ b
 
 end FpgoVerif.C18
